@@ -64,6 +64,7 @@ BLOCKS = {
     "kin": "USE solution 2\nUSE kinetics 1\nSAVE solution 2\nEND\n",
     "mix": "MIX 1\n 1 0.5\n 2 0.5\nSAVE solution 3\nEND\n",
     "runcells": "RUN_CELLS\n -cells 1\n -time_step 50\nEND\n",
+    "runcells0": "RUN_CELLS\n -cells 1\nEND\n",          # no time options: falls back to KINETICS -steps, never to an earlier RUN_CELLS
     "advect": "SOLUTION 0\n pH 7\n Na 5\n Cl 5 charge\nADVECTION\n -cells 2\n -shifts 2\n -time_step 10\n -punch_cells 1-2\n -print_cells 1\nEND\n",
     # ---- definition blocks (no calculation of their own, except exch/surf which equilibrate with solution 1)
     "reaction": "REACTION 1\n HCl 1\n LiBr 0.1\n 0.5 mmol\nEND\n",      # brings two elements (Li, Br) nothing else holds: the component list grows
@@ -96,9 +97,9 @@ BLOCKS = {
                 "INVERSE_MODELING 1\n -solutions 2 3\n -uncertainty 0.05\n -phases\n  Halite\n -balances\n  K 0.05\nEND\n"),
 }
 ORDER = ["react", "selout", "upunch", "upunch3", "punchoff", "punchon", "selout2", "knobs", "dbadd", "rates", "kin", "reaction", "incr",
-         "equil", "mix", "exch", "temp", "runcells", "copy", "advect", "surf", "gas", "selact", "transport", "inverse",
+         "equil", "mix", "exch", "temp", "runcells", "runcells0", "copy", "advect", "surf", "gas", "selact", "transport", "inverse",
          "copycell", "press2", "run5"]
-CORE = ["react", "selout", "upunch", "punchoff", "selout2", "knobs", "dbadd", "rates", "kin", "runcells"]
+CORE = ["react", "selout", "upunch", "punchoff", "selout2", "knobs", "dbadd", "rates", "kin", "runcells", "runcells0"]
 STORE = ["copycell", "press2", "copy", "temp", "run5", "react"]
 QUICK = [b for b in ORDER if b not in ("copy", "temp", "gas", "mix", "equil", "surf", "advect", "copycell", "press2", "run5")]
 ALPHABETS = {"full": ORDER, "quick": QUICK, "core": CORE, "store": STORE}
